@@ -121,9 +121,11 @@ def ql(xs):
 
 AGG_DEF = """
 Definition sub3 := (nat * Q * nat)%type.
+(* ElectronicState.vibmodes as modelled in Model/C10x.v: mode a of molecule n in the level the molecule is in *)
 Definition vm_of (N : nat) (modes : list (list (list sub3))) (s : sig) : list (@submode QR nat) :=
-  flat_map (fun n => map (fun md => let '(nm, om, sh) := nth (nth n s 0%nat) md (0%nat, 0%Q, 0%nat) in qsub nm om sh)
-                         (nth n modes [])) (seq 0 N).
+  vibmodes_of (@submode QR nat)
+    (fun n a l => let '(nm, om, sh) := nth l (nth a (nth n modes []) []) (0%nat, 0%Q, 0%nat) in qsub nm om sh)
+    (fun n => length (nth n modes [])) N s.
 Definition qsq (n : nat) : QR := match n with 1%nat => Q2Qc 1 | _ => Q2Qc 0 end.
 Definition agg_agrees (c : nat * nat * list (list Q) * list (list Q) * list (list Q) * list (list (list sub3)) *
                            list (list nat) * list (list (list Q)) *
@@ -155,7 +157,7 @@ ND_DEF = """
 Definition nd_agrees (c : list nat * list (list nat)) : bool := let '(shape, out) := c in all2 (all2 Nat.eqb) (ndindex shape) out.
 """
 
-IMPORTS = ("From Coq Require Import Qcanon.\nFrom QV Require Import Base.Alg Base.Sums Base.Mat Base.Util Model.C03 Model.C10.\n"
+IMPORTS = ("From Coq Require Import Qcanon.\nFrom QV Require Import Base.Alg Base.Sums Base.Mat Base.Util Model.C03 Model.C10 Model.C10x.\n"
            "Open Scope Z_scope.\n")
 
 
@@ -378,6 +380,10 @@ CORPUS = [
     {"kind": "agg", "mult": 1, "J": [[0]], "mols": [{"E": 10, "dip": [1, 0, 0], "modes": [{"omega": 2, "nmax": [3, 3], "hr": 1.0}]}]},
     {"kind": "agg", "mult": 2, "J": [[0, -3], [-3, 0]],
      "mols": [{"E": 20, "dip": [1, 0, 0], "modes": []}, {"E": 21, "dip": [0, 1, 0], "modes": [{"omega": 1, "nmax": [2, 2], "hr": 0.0}]}]},
+    {"kind": "agg", "mult": 2, "J": [[0, 2, -1], [2, 0, 3], [-1, 3, 0]],
+     "mols": [{"E": 15, "dip": [1, 0, 1], "modes": []},
+              {"E": 16, "dip": [0, 2, 0], "modes": [{"omega": 2, "nmax": [1, 3], "hr": 0.5}]},
+              {"E": 18, "dip": [1, 1, 0], "modes": [{"omega": 1, "nmax": [2, 1], "hr": 1.0}]}]},
     {"kind": "nd", "shape": [2, 3]}, {"kind": "nd", "shape": []}, {"kind": "nd", "shape": [3, 1, 2, 2]},
 ]
 
@@ -451,6 +457,8 @@ def main():
                        "two-level molecules; electronic part as in C03"]
     chk.notes.append("exact: state lists, Ntot, Nb, diagonal of H; 1e-12 relative to max|H|: off-diagonal H, DD, FCf")
     chk.prove()
+    import translate
+    translate.static_tie(cm, chk, PID, cm.REPO)      # second, static tie: model regenerated from the current source
     if args.replay:
         rep = json.load(open(args.replay))
         inp = rep.get("input")
